@@ -39,7 +39,7 @@ add("C10", True, "E1-enumerator", "exhaustive enumeration 12 methods x 4 pose ty
 add("C11", False, "E2-explorer", "explicit-state exploration of all operation words up to depth 4/5 over a 22-operation alphabet + periodic chains to 1e4 operations; dense angle alphabet for the wrap; optimizer histories",
     "Invariants (angle range and congruence; unit norm up to k*eps) are evaluated on every node of the full operation tree and every step of the periodic chains.",
     "exhaustive in the generating word, not over all 1e4-long words", "DESIGN.md 4 C11")
-add("C12", False, "E3-tlc-conformance + E2", "TLC explicit-state model of the stopping rule with every behaviour replayed against Graph.optimize through a scripted edge; exhaustive call-splitting (all compositions of n<=6) and direct enumeration over graphs x tol x max_iter x verbose",
+add("C12", True, "E3-tlc-conformance + E2", "TLC explicit-state model of the stopping rule with every behaviour replayed against Graph.optimize through a scripted edge; exhaustive call-splitting (all compositions of n<=6) and direct enumeration over graphs x tol x max_iter x verbose",
     "TLC checks the documented rule on every reachable state of the loop model; every maximal path of the dumped state graph is replayed on the real optimizer and compared field by field; split runs, verbose and report fields are enumerated on real graphs.",
     "TLC 1.8.0 trusted; eps in the denominator and NaN chi2 are outside the TLA+ model and covered by the direct enumeration", "DESIGN.md 4 C12, Appendix A")
 add("C13", True, "E1-enumerator + E2 cycles", "exhaustive enumeration of small graphs over per-slot value alphabets (extreme doubles, w<0, rotated offsets, non-diagonal information, id alphabets) through real temp files, 1..5 export/import cycles",
